@@ -10,7 +10,7 @@ THEOREMS = ['Crop.c09_stream_partial', 'Crop.c09_unshuffle_positions', 'Crop.c09
             'Crop.partialStream_eq_tagged', 'Crop.c09_partial_positions', 'Crop.nested_of_linear', 'Crop.c09_partial_exact']
 ANCHORS = ['isReady', 'cleanUpDefault', 'sowerGetsExtra', 'sowerFlush', 'nbFromBs', 'capNb', 'bsOfNb', 'remOfNb']
 RULE = ("for every crop configuration of a list of (N, batchsize | num_batches) with and without remainder (incl. a short "
-        "last batch), x shuffle off/seed x result kind (number, array, bool, str, tuple) x grid/case list: ALL non-empty "
+        "last batch), x shuffle off/seed x result kind (number, array, bool, str, tuple, Dataset with int/bool data) x grid/case list: ALL non-empty "
         "proper subsets S of the batches (B<=5 quick, B<=7 thorough) are grown, then reap(allow_incomplete=True), directory "
         "listing, grow_missing, full reap; plus refused reaps (no allow_incomplete) and explicit clean_up values; "
         "non-trivial = every case (S is a non-empty proper subset); distinct by (configuration, S, options)")
@@ -23,7 +23,8 @@ CONFIGS = [  # (n, batching)
 ]
 CONFIGS_T = CONFIGS + [(11, {'nb': 6}), (12, {'bs': 2}), (13, {'nb': 7}), (13, {'bs': 2}), (7, {'nb': 7}), (11, {'nb': 7}), (9, {'nb': 6})]
 KINDS = [{'scalar': 'num'}, {'scalar': 'bool'}, {'scalar': 'str'}, {'arr': [[2], 'num']},
-         {'tuple': [[[], 'num'], [[2], 'num']]}, {'scalar': 'int'}]
+         {'tuple': [[[], 'num'], [[2], 'num']]}, {'scalar': 'int'},
+         {'ds': [['u', [], 'int'], ['v', [2], 'bool']]}]      # the function returns a Dataset with integer and boolean data
 
 
 def nontrivial(h): return True
@@ -112,6 +113,7 @@ def _missing(x):
     """is this canonical value an all-missing placeholder?"""
     if x is None or x == 'nan': return True
     if isinstance(x, list): return len(x) > 0 and all(_missing(v) for v in x)
+    if isinstance(x, dict): return len(x) > 0 and all(_missing(v) for v in x.values())
     return False
 
 
